@@ -26,6 +26,7 @@ def main():
         ctx = Ctx(job["prop"], job["tier"], job["seed"], job["shard"], job["nshards"], job["repo"])
         ctx.budget_s = job.get("budget_s")
         ctx.params = job.get("params", {})
+        ctx.events_path = job["out"] + ".events"
         mod = importlib.import_module(f"rv.props.{job['prop'].lower()}")
         if job.get("replay") is not None:
             mod.replay(ctx, job["replay"])
